@@ -108,6 +108,20 @@ func (c15) Gen(r *rand.Rand, tier string, idx int) *core.Plan {
 				p.Faults = append(p.Faults, rt.Fault{Task: 1, Op: op, Nth: setsByMain, Kind: kind, Arg: int64(r.IntN(1001))})
 			}
 			setsByMain++
+		case x < 7 && len(urls) >= 2:
+			a := r.IntN(len(urls))
+			b := (a + 1 + r.IntN(len(urls)-1)) % len(urls)
+			I := []int64{}
+			for _, ui := range []int64{urls[a], urls[b]} {
+				val++
+				vals = append(vals, val)
+				I = append(I, ui, val, 3600, -1, int64(r.IntN(2000)))
+			}
+			p.Ops = append(p.Ops, core.Op{Task: 1, Kind: "pset", I: I})
+			p.Ops = append(p.Ops, core.Op{Task: 1, Kind: "get", I: []int64{urls[a]}}, core.Op{Task: 1, Kind: "get", I: []int64{urls[b]}})
+			if p.Tape == nil {
+				p.Tape = core.Tape(r, 300, core.Pick(r, 0.2, 0.5))
+			}
 		case x < 13:
 			p.Ops = append(p.Ops, core.Op{Task: 1, Kind: "get", I: []int64{u()}})
 		case x < 17:
@@ -235,6 +249,9 @@ func (l c15) Exec(env *core.Env) *core.Result {
 		return v
 	}
 	prologueDone := p.W("prologue") == 0
+	if prologueDone {
+		sim.Go("prologue-writer", func() {}) // keeps the main task's id (faults are keyed by task id) the same in both shapes
+	}
 	if !prologueDone {
 		var ops []core.Op
 		for _, op := range p.Ops {
@@ -311,6 +328,49 @@ func (l c15) Exec(env *core.Env) *core.Result {
 				}
 				trace = append(trace, st)
 				sim.Abstract("set:" + st.Outcome)
+			case "pset":
+				// two more writers (own cache instances, as the per-certificate goroutines of a
+				// revocation check or two processes would be) store under two different URLs while
+				// the scheduler interleaves their file-system steps
+				va, vb := mkVal(core.Op{I: op.I[0:5]}), mkVal(core.Op{I: op.I[5:10]})
+				done := 0
+				errs := make([]error, 2)
+				for i, v := range []*c15Val{va, vb} {
+					e := model[v.url]
+					if e == nil {
+						e = &c15Entry{cands: []*c15Val{nil}}
+						model[v.url] = e
+					}
+					i, v := i, v
+					sim.Go("concurrent-writer", func() {
+						defer func() { done++ }()
+						c, err := crl.NewFileCache(root)
+						if err != nil {
+							errs[i] = err
+							return
+						}
+						errs[i] = c.Set(ctx, v.url, v.bundle)
+					})
+				}
+				rt.WaitUntil("pset", func() bool { return done == 2 }, time.Time{})
+				for i, v := range []*c15Val{va, vb} {
+					e := model[v.url]
+					st := c15Step{Op: "concurrent-set", URL: short(v.url), Val: v.id, At: at}
+					if errs[i] == nil {
+						e.cands, e.corrupt = []*c15Val{v}, ""
+						st.Outcome = "ok"
+					} else {
+						e.cands = append(e.cands, v)
+						st.Outcome = "refused"
+						res.Probe("concurrent_set_failed")
+					}
+					trace = append(trace, st)
+					sim.Abstract("pset:" + st.Outcome)
+				}
+				if va.url == vb.url && errs[0] == nil && errs[1] == nil {
+					model[va.url].cands = []*c15Val{va, vb} // same URL twice: either store may have been the last
+				}
+				res.Probe("concurrent_stores_of_distinct_urls")
 			case "advance":
 				v := values[op.Int(0)]
 				if v == nil {
